@@ -358,15 +358,16 @@ def run(ctx: Ctx) -> None:
                          {"input": var, "space_twin": base})
         # ---- (c) a line of every block-starting shape, indented by every space/tab mixture, after every kind of
         # first line (what it may interrupt / continue depends on its column, never on how the blanks are spelled)
-        firsts = ["Title", "- Title", "> Title", "1. Title", "Title\nmore", "- a\n\n  b", "# h", "```\ncode", "    code", "<div>", "[r]: /u", ""]
+        firsts = ["Title", "- Title", "> Title", "1. Title", "Title\nmore", "- a\n\n  b", "# h", "```\ncode", "    code", "<div>", "[r]: /u", "[r]:", "> [r]: /u", "- [r]:", ""]
         indents = ["\t", " \t", "  \t", "   \t", "    \t", "\t ", "\t  ", "\t\t", " \t ", "  \t\t", "\t   ", "   \t \t"]
-        shapes = ["===", "---", "- x", "* * *", "# h", "> q", "```", "~~~", "1. x", "x", "<div>", "[r2]: /v", "|a|b|", "+", "2) y", "=", "-"]
+        shapes = ["===", "---", "- x", "* * *", "# h", "> q", "```", "~~~", "1. x", "x", "<div>", "[r2]: /v", "|a|b|", "+", "2) y", "=", "-",
+                  "'T'", '"T"', "(T)", "/v 'T'", "/v", "<v> \"T\""]       # continuation lines of a reference definition
         nc = 0
         mdt = MarkdownIt("commonmark").enable("table")
         for f in firsts:
             for ind in indents:
                 for sh in shapes:
-                    for tail in ("\n", "\nz\n"):
+                    for tail in ("\n", "\nz\n") + (("\n\n[r] [r2]\n",) if "[r" in f or "[r" in sh else ()):
                         d0 = (f + "\n" if f else "") + ind + sh + tail
                         e0 = expand_leading(d0)
                         nc += 1
